@@ -336,6 +336,16 @@ func runC08(c *caseWriter) (string, bool, map[string]int) {
 	emitH([]histOp{N("main"), P(0, `{{define "bad"}}<a href="{{.U}}{{end}}{{define "c2"}}<b title="{{template "bad" .}}">{{end}}ok`), Y(0, "bad"), Y(0, "c2")})
 	emitH([]histOp{N("main"), P(0, `{{define "bad"}}<a href="{{.U}}{{end}}{{define "callsbad"}}{{template "bad" .}}{{end}}ok`), Y(0, "bad"), Y(0, "callsbad")})
 	emitH([]histOp{N("main"), P(0, `{{define "rec"}}r{{end}}<p>{{template "rec" .}}</p>`), {kind: "S", h: 0, name: "rec"}, {kind: "C", h: 1}, Y(2, "main")})
+	// a first execution memoizes main and its helpers; then bystander templates are redefined through t.New one by one
+	// and a memoized helper is executed for the first time after each: the analysis is answered from the memo and goes
+	// straight to commit, which walks every memoized name (whatever the engine remembers about the set's members is
+	// used there; which member it remembers may depend on map order, hence the repetitions)
+	for rep := 0; rep < 6; rep++ {
+		text := fmt.Sprintf(`{{define "h1"}}<b>{{.A}}</b>{{end}}{{define "h2"}}<i>{{.B}}</i>{{end}}{{define "h3"}}<u>%d{{.A}}</u>{{end}}`+
+			`{{define "v1"}}v{{end}}{{define "v2"}}w{{end}}{{define "v3"}}x{{end}}{{template "h1" .}}{{template "h2" .}}{{template "h3" .}}`, rep)
+		emitH([]histOp{N("main"), P(0, text), Y(0, "main"), {kind: "S", h: 0, name: "v1"}, Y(0, "h1"), {kind: "S", h: 0, name: "v2"}, Y(0, "h2"),
+			{kind: "S", h: 0, name: "v3"}, Y(0, "h3"), X(0)})
+	}
 	for _, s := range extraSeeds {
 		for _, v := range seedVariants(s) {
 			emitH([]histOp{N("main"), P(0, v), X(0), X(0)})
